@@ -8,7 +8,7 @@ d="$(cd "$1" && pwd)"
 wt="$(mktemp -d /tmp/seedverify.XXXXXX)"
 trap 'git -C /repo worktree remove --force "$wt" >/dev/null 2>&1; rm -rf "$wt"' EXIT
 git -C /repo worktree add --detach "$wt" HEAD >/dev/null 2>&1 || { echo "SEED $d worktree-failed"; exit 2; }
-place="$(head -1 "$d/demo_test.go" | sed -n 's#^// place in: *##p' | tr -d '\r' | sed 's#/*$##')"
+place="$(head -1 "$d/demo_test.go" | sed -n 's#^// place in: *##p' | tr -d '\r' | awk '{print $1}' | sed 's#/*$##')"
 [ -z "$place" ] && place="."
 race=""; grep -qi "race" "$d/meta.json" "$d/notes.md" 2>/dev/null && grep -qi -- "-race" "$d/notes.md" "$d/meta.json" 2>/dev/null && race="-race"
 cd "$wt"
